@@ -1,11 +1,11 @@
 (* Props/C12.v -- property C12: linear algebra over dual numbers differentiates implicitly defined results.
    Statements about the hand model Hand/LinAlg.v of src/linalg.rs (executed in Coq on binary64 against the implementation).  The identities are
    identities of the RING of dual numbers, so each holds in the real part and in every derivative part at once.  Sizes are arbitrary.
-   NOT proved: the determinant and inverse routines, the Jacobi iteration, and nalgebra's decompositions -- decided by the correspondence (determinant,
+   NOT proved: the determinant routine, norm, the Jacobi iteration, and nalgebra's decompositions -- decided by the correspondence (determinant,
    inverse, norm) and by the defining identities checked on the implementation.
    Only `exact` proofs here. *)
 From Coq Require Import List Arith Ring.
-From ND Require Import Tactics LinAlg C12_proofs C12_lu.
+From ND Require Import Tactics LinAlg C12_proofs C12_lu C12_inv.
 From NDgen Require Import Classes.
 Local Open Scope R_scope.
 
@@ -68,6 +68,13 @@ Section AnyRingLU.
   Theorem C12_solve_correct : forall (A : list (list T)) (b : list T) l, is_mat (length A) A -> length b = length A -> lu_new A = Some l ->
     length (lu_solve l b) = length A /\ forall i, (i < length A)%nat -> sum_list (fun c => (mg A i c * vg (lu_solve l b) c)%rs) (range 0 (length A)) = vg b i.
   Proof. exact (lu_solve_Ax_eq_b RT isunit div_mul nz_zero pivot_unit). Qed.
+  (* LU::inverse: column j is LU::solve of the j-th unit vector, hence A A^-1 = I *)
+  Theorem C12_inverse_column : forall (l : lu (T:=T)) j, (j < length (lu_p l))%nat -> col (lu_inverse l) j = lu_solve l (unitv (length (lu_p l)) j).
+  Proof. exact inverse_column. Qed.
+  Theorem C12_inverse_correct : forall (A : list (list T)) l, is_mat (length A) A -> lu_new A = Some l ->
+    forall i j, (i < length A)%nat -> (j < length A)%nat ->
+      sum_list (fun c => (mg A i c * mg (lu_inverse l) c j)%rs) (range 0 (length A)) = (if Nat.eqb i j then (Overload.one : T) else (Overload.zero : T)).
+  Proof. exact (inverse_correct RT isunit div_mul nz_zero pivot_unit). Qed.
 End AnyRingLU.
 
 (* for the dual number types over R: A x = b in the real part and in every derivative part at once (equality of dual numbers) *)
@@ -87,6 +94,11 @@ Theorem C12_Ax_eq_b_HyperHyperDual : forall (A : list (list (HyperHyperDual R)))
   length (lu_solve l b) = length A /\ forall i, (i < length A)%nat -> sum_list (fun c => (mg A i c * vg (lu_solve l b) c)%rs) (range 0 (length A)) = vg b i.
 Proof. exact lu_solve_HHD. Qed.
 
+Theorem C12_inverse_Dual : forall (A : list (list (Dual R))) l, is_mat (length A) A -> lu_new A = Some l ->
+  forall i j, (i < length A)%nat -> (j < length A)%nat ->
+    sum_list (fun c => (mg A i c * mg (lu_inverse l) c j)%rs) (range 0 (length A)) = (if Nat.eqb i j then (Overload.one : Dual R) else (Overload.zero : Dual R)).
+Proof. exact (inverse_correct RT_Dual (fun d => m_re d <> 0) div_mul_Dual nz_zero_R pu_Dual). Qed.
+
 (* a pivot column whose real parts all vanish is reported *)
 Theorem C12_singular_detected : forall (l : lu (T:=Dual R)) n i, (forall k, m_re (m_abs (mg (lu_a l) k i)) = 0) -> lu_step (Some l) n i = None.
 Proof. exact singular_detected. Qed.
@@ -95,5 +107,5 @@ Proof. exact singular_detected. Qed.
 Example C12_example : forall i, (i < 2)%nat -> m_re (mg ((mkDual 2 1 :: mkDual 1 0 :: nil) :: (mkDual 0.5 0 :: mkDual 3 1 :: nil) :: nil) i i) <> 0.
 Proof. exact example_c12. Qed.
 
-Definition C12_bundle := (@C12_forward_substitution, @C12_back_substitution, @C12_solve_is_both, C12_rings, C12_units, C12_solve_Dual, C12_singular_detected, @C12_factorisation, @C12_solve_correct, C12_Ax_eq_b_Dual, C12_Ax_eq_b_Dual2, C12_Ax_eq_b_Dual3, C12_Ax_eq_b_HyperDual, C12_Ax_eq_b_HyperHyperDual).
+Definition C12_bundle := (@C12_forward_substitution, @C12_back_substitution, @C12_solve_is_both, C12_rings, C12_units, C12_solve_Dual, C12_singular_detected, @C12_factorisation, @C12_solve_correct, C12_Ax_eq_b_Dual, C12_Ax_eq_b_Dual2, C12_Ax_eq_b_Dual3, C12_Ax_eq_b_HyperDual, C12_Ax_eq_b_HyperHyperDual, @C12_inverse_column, @C12_inverse_correct, C12_inverse_Dual).
 Print Assumptions C12_bundle.
